@@ -61,7 +61,14 @@ func (n *naiveTSO) Commit(revision uint64) {
 	//	panic("committed revision must increase continuously")
 	//}
 
-	atomic.StoreUint64(&n.committedRevision, revision)
+	// never move the committed revision backwards: on a follower several read-revision syncs run
+	// concurrently and a delayed one must not put an older answer back over a newer one
+	for {
+		cur := atomic.LoadUint64(&n.committedRevision)
+		if cur >= revision || atomic.CompareAndSwapUint64(&n.committedRevision, cur, revision) {
+			break
+		}
+	}
 	// in case leader transfer, need to update tso and pre tso
 	preTSO := atomic.LoadUint64(&n.dealRevision)
 	if preTSO < revision {
